@@ -119,6 +119,11 @@ def unwrapSpec (fl : α → α) (maxDelta step : α) (xs : List α) : List α :=
   (List.range xs.length).map fun n =>
     xs.getD n 0 + sumL ((diffs (xs.take (n + 1))).map (corr fl maxDelta step))
 
+/-- `fl` is a floor function: integer valued, `fl x ≤ x < fl x + 1`
+    (hypothesis of the unwrap theorems; `Rat.floor` satisfies it) -/
+def IsFloor [IntCast α] [LE α] (fl : α → α) : Prop :=
+  ∀ x : α, (∃ k : Int, fl x = (k : α)) ∧ fl x ≤ x ∧ x < fl x + 1
+
 /-- all adjacent pairs of a list satisfy `R` -/
 def AdjAll (R : α → α → Prop) : List α → Prop
   | x :: y :: rest => R x y ∧ AdjAll R (y :: rest)
